@@ -111,7 +111,8 @@ func c17MoreScenarios() []c17Scn {
 		return []func(){
 			func() { _, _ = svc.Attest(ctx, mk(4, []phase0.ValidatorIndex{1, 2})) },
 			func() { _, _ = svc.Attest(ctx, mk(5, []phase0.ValidatorIndex{2})) },
-			func() { _, _ = svc.Attest(ctx, mk(8, []phase0.ValidatorIndex{1})) },
+			// (a run two epochs later never overlaps: the controller starts a slot's job inside that slot)
+			func() { _, _ = svc.Attest(ctx, mk(6, []phase0.ValidatorIndex{1})) },
 		}
 	}})
 
@@ -146,7 +147,7 @@ func c17MoreScenarios() []c17Scn {
 	// asks for pending attestations
 	for _, reorg := range []bool{false, true} {
 		reorg := reorg
-		scns = append(scns, c17Scn{name: fmt.Sprintf("controller/headevent-attest-pending/reorg=%v", reorg), settle: int64(c03SlotDur) + int64(c03Delay) - int64(time.Second),
+		scns = append(scns, c17Scn{name: fmt.Sprintf("controller/headevent-attest-pending/reorg=%v", reorg), deviation: true, tail: int64(10 * time.Second), settle: int64(c03SlotDur) + int64(c03Delay) - int64(time.Second),
 			setup: func(ctx context.Context) []func() {
 				w := &c03World{attKinds: [2]string{"E", "C"}, propKinds: [2]string{"A", "A"}, reorgAt: -1}
 				ct := newChainTime(-(int64(c03Epoch0*c03SPE) * int64(c03SlotDur)), c03SlotDur, c03SPE)
@@ -194,7 +195,7 @@ func c17MoreScenarios() []c17Scn {
 	}
 
 	// block proposer: two relays unblinding the same proposal
-	scns = append(scns, c17Scn{name: "proposer/unblind-two-relays", setup: func(ctx context.Context) []func() {
+	scns = append(scns, c17Scn{name: "proposer/unblind-two-relays", deviation: true, setup: func(ctx context.Context) []func() {
 		e := &c05Env{version: spec.DataVersionDeneb, blinded: true, auction: "winner2", acct: newAccount("W", "proposer", 7), graffiti: "none", sign: "ok", submit: "ok"}
 		for i := 0; i < 2; i++ {
 			e.relays = append(e.relays, &c05Relay{idx: i, env: e, beh: "full"})
